@@ -91,6 +91,13 @@ func checkC05Read(c c05ReadCase) string {
 		if m := diffSTLRows(wc.Rows, gc.Rows, teletext); m != "" {
 			return fmt.Sprintf("cue %d (DSC %q): %s", i, g.DSC, m)
 		}
+		wantRows := len(wc.Rows)
+		if wc.ExtraBreak > 0 {
+			wantRows++
+		}
+		if gc.NRows != wantRows {
+			return fmt.Sprintf("cue %d: position reports %d rows, the text field holds %d (line-break codes + 1, empty rows included)", i, gc.NRows, wantRows)
+		}
 	}
 	return ""
 }
@@ -374,6 +381,7 @@ func TestC05(t *testing.T) {
 	rapidCheck(t, "C05/read", tier(3000, 200000), func(rt *rapid.T) {
 		c := c05ReadCase{Doc: genSTLDoc(rt, false), IgnoreTCP: rapid.Bool().Draw(rt, "ignore")}
 		addRecodes(rt, &c.Doc)
+		addBlankRowsAndComments(rt, &c.Doc)
 		nt, ls := c05Labels(c.Doc)
 		ev.Case(nt, fmt.Sprintf("r%v", c), append(ls, "read")...)
 		if nt && len(c.Doc.Cues) <= 2 {
